@@ -691,7 +691,7 @@ int main(int argc, char** argv)
                         cx.fill_phase = f[6] == "1";
                         bool rel = false;
                         for (auto& p : cli.prm.active) rel = rel || relevant(p, "CRASH", cx, false);
-                        if (!rel) r.verdict = "FOREIGN";
+                        if (!rel) r.verdict = "FOREIGN-CRASH";
                     }
                     pending_crash.clear();
                     pending_tag.clear();
@@ -776,10 +776,18 @@ int main(int argc, char** argv)
                 continue;
             }
             if (r.verdict == "OK") ++terminal_checks;
-            if (r.verdict == "FOREIGN")
+            if (r.verdict == "FOREIGN-CRASH")
             {
+                // the operation did not complete, but the crash belongs to another property: nothing to expand
                 ++foreign_pruned;
                 continue;
+            }
+            if (r.verdict == "FOREIGN")
+            {
+                // only monitors of other properties fired: counted, not reported here, and the state is still
+                // expanded - a defect that first shows up under another property's monitor must not hide the
+                // violations of this property that follow from it
+                ++foreign_pruned;
             }
             if (visited.insert(r.canon).second)
             {
@@ -819,7 +827,7 @@ int main(int argc, char** argv)
     js << " \"nmax\": " << cli.prm.nmax << ", \"cmax\": " << cli.prm.cmax << ", \"bmax\": " << cli.prm.bmax
        << ", \"depth_bound\": " << cli.prm.depth << ",\n";
     js << " \"states\": " << states << ", \"transitions\": " << transitions << ", \"terminal_checks\": " << terminal_checks
-       << ", \"fault_runs\": " << fault_runs << ", \"foreign_pruned\": " << foreign_pruned << ", \"crashes\": " << crashes
+       << ", \"fault_runs\": " << fault_runs << ", \"foreign_seen\": " << foreign_pruned << ", \"crashes\": " << crashes
        << ",\n";
     js << " \"distinct_observations\": " << obs_seen.size() << ", \"depth_completed\": " << depth_completed
        << ", \"fixpoint\": " << (fixpoint ? "true" : "false") << ", \"deadline_hit\": " << (exhausted_deadline ? "true" : "false")
